@@ -11,6 +11,7 @@ LEVEL_TEXT = ("Static structural proof of necessary conditions: (R6.1) alias-bas
               "combiner and the curly-brace splicer treat the same set of cell texts as 'missing' ({'', 'n/a'}), and every "
               "column transformer can return only members of that set for a missing cell. The content of the assembled "
               "annotation, ordering and delimiter well-formedness in general are NOT decided.")
+LEVEL_EXTRA = 'Added after the seeded evaluation: (R6.2) the missing marker is compared as a whole cell, never removed as a substring; (R6.3) every reference substitution goes through the n/a-aware splicer; (R6.4) one reference pattern (text and flags) for assembly and sidecar validation.'
 
 
 def sentinels(expr, var):
